@@ -126,6 +126,42 @@ theorem Presence.never_wrong (w : PresWorld) (h : w.Reach) (c : Client) (hc : c 
   have hok := h.inv.views c hc r hv
   exact ⟨fun e he => by obtain ⟨d, hd, rfl⟩ := hok.sound e he; exact List.mem_map.mpr ⟨d, hd, rfl⟩, hok.complete⟩
 
+/-- Going away and coming back are announced to EVERY connected user, the user itself included (both
+    use `SendAll`): so the returning user's own row is reset too.  (Both events are ordinary steps of
+    `Reach`, so `Presence.converges` covers histories with idle periods.) -/
+theorem away_and_back_tell_everybody (w : PresWorld) (a : Nat) (c : Client) (hg : w.reg.get a = some c) :
+    (flagBit c.flags 0 = false →
+      (w.step (.away a)).2.map (fun p => p.1.to) = w.reg.ids ∧
+      ∀ p ∈ (w.step (.away a)).2, p.2 = Note.change (entryOf { c with flags := setFlag c.flags 0 true })) ∧
+    (flagBit c.flags 0 = true →
+      (w.step (.wake a)).2.map (fun p => p.1.to) = w.reg.ids ∧
+      ∀ p ∈ (w.step (.wake a)).2, p.2 = Note.change (entryOf { c with flags := setFlag c.flags 0 false })) := by
+  have hid := (Registry.get_some hg).2
+  have hids : ∀ c' : Client, c'.id = c.id →
+      (w.reg.modify c.id (fun _ => c')).clients.map (fun d => (changeTo 301 changeFieldsC c' d).1.to) = w.reg.ids := by
+    intro c' hc'
+    unfold Registry.modify Registry.ids
+    simp only [List.map_map]
+    apply List.map_congr_left
+    intro d _
+    simp only [Function.comp, changeTo, mkTran]
+    split
+    · rename_i h; rw [hc', h]
+    · rfl
+  constructor
+  · intro hf
+    simp only [PresWorld.step, hg, presAway, hf, Bool.false_eq_true, if_false, List.map_map]
+    refine ⟨hids _ rfl, ?_⟩
+    intro p hp
+    obtain ⟨d, _, rfl⟩ := List.mem_map.mp hp
+    rfl
+  · intro hf
+    simp only [PresWorld.step, hg, presWake, hf, Bool.not_true, Bool.false_eq_true, if_false, List.map_map]
+    refine ⟨hids _ rfl, ?_⟩
+    intro p hp
+    obtain ⟨d, _, rfl⟩ := List.mem_map.mp hp
+    rfl
+
 /-- The notes the model attaches to its outputs are what a client decodes from the bytes. -/
 theorem wire_change_decodes (to : Nat) (c : Client) (hid : c.id < 65536) :
     noteOf (mkTran 301 to (changeFieldsA c)) = .change (entryOf c) ∧
